@@ -20,6 +20,7 @@ structure VecOK (heap : List Arr) (nmeta : Nat) (v : Vec) : Prop where
   ncells : v.cells.length = prod v.shape
   cells : ∀ c ∈ v.cells, CellOK heap v.fields.length c
   mref : v.mref < nmeta
+  pos : ∀ d ∈ v.shape, 0 < d
 
 structure Inv (s : State) : Prop where
   wf : ∀ a ∈ s.heap, a.WF
@@ -73,7 +74,7 @@ theorem CellOK.none (h : List Arr) (nf : Nat) : CellOK h nf none := by
 
 theorem VecOK.mono {h h' : List Arr} {n n' : Nat} {v : Vec} (e : HeapExt h h') (hn : n ≤ n')
     (hv : VecOK h n v) : VecOK h' n' v :=
-  ⟨hv.nodup, hv.units, hv.ncells, fun c hc => (hv.cells c hc).mono e, Nat.lt_of_lt_of_le hv.mref hn⟩
+  ⟨hv.nodup, hv.units, hv.ncells, fun c hc => (hv.cells c hc).mono e, Nat.lt_of_lt_of_le hv.mref hn, hv.pos⟩
 
 /-- the workhorse: a new state whose heap extends the old one, stays rectangular, and whose
 vectors are old ones or satisfy the vector invariant in the new heap -/
@@ -193,7 +194,7 @@ theorem Inv.mkVec {s : State} (hI : Inv s) {heap' : List Arr}
     (hwf : ∀ a ∈ heap', a.WF) (hext : HeapExt s.heap heap')
     (shape : List Nat) (cells : List (Option Ref)) (fields units : List String)
     (hn : fields.Nodup) (hu : units.length = fields.length) (hc : cells.length = prod shape)
-    (hcells : ∀ c ∈ cells, CellOK heap' fields.length c) :
+    (hcells : ∀ c ∈ cells, CellOK heap' fields.length c) (hp : ∀ d ∈ shape, 0 < d) :
     Inv ((({ s with heap := heap' } : State).mkVec shape cells fields units).1) := by
   unfold State.mkVec
   refine hI.update hwf hext (by simp) ?_
@@ -201,7 +202,7 @@ theorem Inv.mkVec {s : State} (hI : Inv s) {heap' : List Arr}
   rcases List.mem_append.mp hvm with h | h
   · exact Or.inl h
   · simp at h; subst h
-    exact Or.inr ⟨hn, hu, hc, hcells, by simp⟩
+    exact Or.inr ⟨hn, hu, hc, hcells, by simp, hp⟩
 
 /-! ### validators -/
 
@@ -254,20 +255,36 @@ theorem inv_alloc {s : State} (hI : Inv s) (n : Nat) (rows : List (List Rat)) :
     Inv { s with heap := s.heap ++ [Arr.lit n rows] } :=
   hI.update (wf_append hI.wf (Arr.lit_wf n rows)) (HeapExt.append _ _) (Nat.le_refl _) (fun _ h => Or.inl h)
 
+theorem validateShape_pos {shape : List Int} {sh : List Nat} (h : validateShape shape = .ok sh) :
+    ∀ d ∈ sh, 0 < d := by
+  unfold validateShape at h
+  split at h
+  · cases h
+  · rename_i hany
+    cases h
+    intro d hd
+    simp only [List.mem_map] at hd
+    obtain ⟨x, hx, rfl⟩ := hd
+    have : ¬ (x ≤ 0) := by
+      intro hle
+      exact hany (List.any_eq_true.mpr ⟨x, hx, by simpa using hle⟩)
+    omega
+
 theorem inv_fromShape {s : State} (hI : Inv s) (shape : List Int) (nf : Option Int) (fields units : Option (List String)) :
     Inv (opFromShape s shape nf fields units).1 := by
   unfold opFromShape
   split
   · exact hI
   · exact hI
-  · split
+  · rename_i sh _ hsh
+    split
     · exact hI
     · rename_i fs hfs
       split
       · exact hI
       · rename_i us hus
         exact hI.mkVec hI.wf (HeapExt.refl _) _ _ fs us (resolveFields_ok hfs) (validateUnits_ok hus) (by simp)
-          (by intro c hc; rw [List.eq_of_mem_replicate hc]; exact CellOK.none _ _)
+          (by intro c hc; rw [List.eq_of_mem_replicate hc]; exact CellOK.none _ _) (validateShape_pos hsh)
 
 theorem store_spec {heap heap1 : List Arr} {nf : Nat} {it : DItem} {r : Ref}
     (hwf : ∀ a ∈ heap, a.WF) (h : it.store heap nf = .ok (heap1, r)) :
@@ -348,7 +365,7 @@ theorem inv_fromData {s : State} (hI : Inv s) (items : List DItem) (nf : Option 
                 · rename_i heap' cs hst
                   obtain ⟨hwf, hext, hlen, hcs⟩ := storeItems_spec _ _ _ _ _ hI.wf hst
                   exact hI.mkVec hwf hext _ cs fs us (resolveFields_ok hfs) (validateUnits_ok hus)
-                    (by simp [prod, hlen]) hcs
+                    (by simp [prod, hlen]) hcs (by intro d hd; simp at hd; subst hd; simp)
 
 theorem inv_setDataAttr {s : State} (hI : Inv s) (vid : Nat) (lens : List Nat) (items : List DItem) :
     Inv (opSetDataAttr s vid lens items).1 := by
@@ -370,7 +387,7 @@ theorem inv_setDataAttr {s : State} (hI : Inv s) (vid : Nat) (lens : List Nat) (
             · exact hI
             · rename_i heap' cs hst
               obtain ⟨hwf, hext, hlen, hcs⟩ := storeItems_spec _ _ _ _ _ hI.wf hst
-              refine hI.putVec vid hwf hext ⟨hvok.nodup, hvok.units, ?_, hcs, hvok.mref⟩
+              refine hI.putVec vid hwf hext ⟨hvok.nodup, hvok.units, ?_, hcs, hvok.mref, hvok.pos⟩
               have e1 : lens.length = v.shape.length := by omega
               have e2 : lens = v.shape := by
                 have := Classical.not_not.mp h2
@@ -494,7 +511,8 @@ theorem inv_getItem {s : State} (hI : Inv s) (vid : Nat) (idx : List Ix) : Inv (
           · rename_i ps hps
             split
             · exact hI
-            · split
+            · rename_i hany
+              split
               · exact hI
               · rename_i fs hfs
                 split
@@ -506,7 +524,13 @@ theorem inv_getItem {s : State} (hI : Inv s) (vid : Nat) (idx : List Ix) : Inv (
                     have := resolveAll_length _ _ _ _ hls
                     rw [padIdx_length _ _ (by omega)] at this
                     simpa using this
-                  refine hI.mkVec hI.wf (HeapExt.refl _) _ _ _ us hvok.nodup (validateUnits_ok hus) ?_ ?_
+                  refine hI.mkVec hI.wf (HeapExt.refl _) _ _ _ us hvok.nodup (validateUnits_ok hus) ?_ ?_ ?_
+                  rotate_left 2
+                  · intro d hd
+                    rcases Nat.eq_zero_or_pos d with h0 | h0
+                    · subst h0
+                      exact absurd (List.any_eq_true.mpr ⟨0, hd, by simp⟩) hany
+                    · exact h0
                   · simp [positions_length _ _ _ hlen hps]
                   · intro c hc
                     simp only [List.mem_map] at hc
@@ -560,7 +584,7 @@ theorem inv_finish {s : State} (hI : Inv s) (vid : Nat) {v : Vec} (hv : VecOK s.
     (r : List (Option Ref) × Option Err) (hl : r.1.length = v.cells.length)
     (hc : ∀ c ∈ r.1, CellOK s.heap v.fields.length c) : Inv (finish s vid v r).1 := by
   unfold finish
-  exact hI.putVec (heap' := s.heap) vid hI.wf (HeapExt.refl _) ⟨hv.nodup, hv.units, by simp [hl, hv.ncells], hc, hv.mref⟩
+  exact hI.putVec (heap' := s.heap) vid hI.wf (HeapExt.refl _) ⟨hv.nodup, hv.units, by simp [hl, hv.ncells], hc, hv.mref, hv.pos⟩
 
 theorem inv_setData {s : State} (hI : Inv s) (vid : Nat) (idx : List Ix) (val : SetVal) :
     Inv (opSetData s vid idx val).1 := by
@@ -622,7 +646,7 @@ theorem inv_setItem {s : State} (hI : Inv s) (vid : Nat) (idx : List Ix) (val : 
             · exact hI
             · rename_i p hp
               refine hI.putVec (heap' := s.heap) vid hI.wf (HeapExt.refl _)
-                ⟨hvok.nodup, hvok.units, by simp [hvok.ncells], ?_, hvok.mref⟩
+                ⟨hvok.nodup, hvok.units, by simp [hvok.ncells], ?_, hvok.mref, hvok.pos⟩
               intro c hc
               rcases mem_set_cases hc with hc | hc
               · exact hvok.cells c hc
@@ -810,7 +834,7 @@ theorem inv_addFields {s : State} (hI : Inv s) (vid : Nat) (names : List String)
             refine ⟨Arr.addCols_wf hwf _, ?_⟩
             have : a.ncols = v.fields.length := by simpa using hb
             simp [Arr.addCols, this]) v.cells s.heap heap' cs hI.wf hr
-        exact hI.putVec vid a1 a2 ⟨hnd, by simp [hvok.units], by simp [a3, hvok.ncells], by simpa using a4, hvok.mref⟩
+        exact hI.putVec vid a1 a2 ⟨hnd, by simp [hvok.units], by simp [a3, hvok.ncells], by simpa using a4, hvok.mref, hvok.pos⟩
 
 theorem map_getD_range (l : List String) : (List.range l.length).map (l.getD · "") = l := by
   apply List.ext_getElem
@@ -852,7 +876,7 @@ theorem inv_removeFields {s : State} (hI : Inv s) (vid : Nat) (names : List Stri
       obtain ⟨heap', cs⟩ := r
       obtain ⟨a1, a2, a3, a4⟩ := rebuildCells_spec _ _ keep.length
         (by intro a _ _; exact ⟨Arr.keepCols_wf a keep, by simp [Arr.keepCols]⟩) v.cells s.heap heap' cs hI.wf hr
-      exact hI.putVec vid a1 a2 ⟨hnd, by simp, by simp [a3, hvok.ncells], by simpa using a4, hvok.mref⟩
+      exact hI.putVec vid a1 a2 ⟨hnd, by simp, by simp [a3, hvok.ncells], by simpa using a4, hvok.mref, hvok.pos⟩
 
 /-! ### deep copy -/
 
@@ -1022,7 +1046,7 @@ theorem inv_copy {s : State} (hI : Inv s) (vid : Nat) : Inv (opCopy s vid).1 := 
           obtain ⟨heap', cs⟩ := dc
           simp only at e1 e3 ⊢
           subst e1
-          refine hI.mkVec ?_ (HeapExt.append _ _) _ cs _ us hvok.nodup (validateUnits_ok hus) ?_ ?_
+          refine hI.mkVec ?_ (HeapExt.append _ _) _ cs _ us hvok.nodup (validateUnits_ok hus) ?_ ?_ hvok.pos
           · intro a ha
             rcases List.mem_append.mp ha with h | h
             · exact hI.wf a h
